@@ -713,3 +713,162 @@ func RunLattice[S any](f *Flow, ops LatticeOps[S]) map[*cfg.Block]S {
 	}
 	return in
 }
+
+// TrackNil wraps an automaton so that what is known about one variable being nil is part of every path's state: the
+// assignments `v = nil`, `v = <error constructed here>` and `v = v` are followed, branch conditions on v refine it, and
+// edges that contradict it are not taken.  Rules written over the inner states become insensitive to where a test is
+// written (the same variable tested again after a join, a flag-like `err` threaded through an if / else) without
+// changing them.  Inner states must stay below 85.
+func TrackNil(info *types.Info, obj types.Object, a *Automaton) *Automaton {
+	if obj == nil {
+		return a
+	}
+	const (
+		unknown = 0
+		isNil   = 1
+		nonNil  = 2
+	)
+	enc := func(inner, k int) int {
+		if inner < 0 {
+			return inner
+		}
+		if inner >= 85 {
+			panic("TrackNil: inner automaton state out of range")
+		}
+		return inner*3 + k
+	}
+	return &Automaton{
+		Init: enc(a.Init, unknown),
+		Node: func(st int, n ast.Node) int {
+			inner, k := st/3, st%3
+			inner = a.Node(inner, n)
+			if inner < 0 {
+				return inner
+			}
+			upd := func(lhs, rhs ast.Expr) {
+				if ObjOf(info, lhs) != obj {
+					return
+				}
+				switch {
+				case rhs == nil:
+					k = unknown
+				case IsNil(info, rhs):
+					k = isNil
+				case NonNilErrorExpr(info, rhs):
+					k = nonNil
+				case ObjOf(info, rhs) == obj:
+					// v = v
+				default:
+					k = unknown
+				}
+			}
+			switch x := n.(type) {
+			case *ast.AssignStmt:
+				if len(x.Lhs) == len(x.Rhs) {
+					for i := range x.Lhs {
+						upd(x.Lhs[i], x.Rhs[i])
+					}
+				} else {
+					for _, l := range x.Lhs {
+						upd(l, nil)
+					}
+				}
+			case *ast.ValueSpec:
+				for i, nm := range x.Names {
+					if info.Defs[nm] == obj {
+						if i < len(x.Values) {
+							upd(nm, x.Values[i])
+						} else {
+							k = isNil // var err error
+						}
+					}
+				}
+			case *ast.DeclStmt:
+				if gd, ok := x.Decl.(*ast.GenDecl); ok {
+					for _, sp := range gd.Specs {
+						if vs, ok := sp.(*ast.ValueSpec); ok {
+							for i, nm := range vs.Names {
+								if info.Defs[nm] == obj {
+									if i < len(vs.Values) {
+										upd(nm, vs.Values[i])
+									} else {
+										k = isNil
+									}
+								}
+							}
+						}
+					}
+				}
+			}
+			return enc(inner, k)
+		},
+		Edge: func(st int, facts []Fact) (int, bool) {
+			inner, k := st/3, st%3
+			for _, f := range facts {
+				if e, nn, ok := NilTest(info, f); ok && ObjOf(info, e) == obj {
+					switch {
+					case nn && k == isNil, !nn && k == nonNil:
+						return st, false
+					case nn:
+						k = nonNil
+					default:
+						k = isNil
+					}
+				}
+			}
+			if a.Edge != nil {
+				var ok bool
+				inner, ok = a.Edge(inner, facts)
+				if !ok {
+					return st, false
+				}
+			}
+			return enc(inner, k), true
+		},
+	}
+}
+
+// MainErrorVar returns the error-typed variable of fd that is tested against nil most often (ties: the named result).
+func MainErrorVar(info *types.Info, fd *ast.FuncDecl) types.Object {
+	count := map[types.Object]int{}
+	ast.Inspect(fd.Body, func(n ast.Node) bool {
+		var cond ast.Expr
+		switch x := n.(type) {
+		case *ast.IfStmt:
+			cond = x.Cond
+		case *ast.CaseClause:
+			for _, e := range x.List {
+				for _, f := range Decompose(e, true, nil) {
+					if v, _, ok := NilTest(info, f); ok {
+						if o := ObjOf(info, v); o != nil && IsErrorType(o.Type()) {
+							count[o]++
+						}
+					}
+				}
+			}
+		case *ast.SwitchStmt:
+			if x.Tag != nil {
+				if o := ObjOf(info, x.Tag); o != nil && IsErrorType(o.Type()) {
+					count[o]++
+				}
+			}
+		}
+		if cond != nil {
+			for _, f := range append(Decompose(cond, true, nil), Decompose(cond, false, nil)...) {
+				if v, _, ok := NilTest(info, f); ok {
+					if o := ObjOf(info, v); o != nil && IsErrorType(o.Type()) {
+						count[o]++
+					}
+				}
+			}
+		}
+		return true
+	})
+	var best types.Object
+	for o, n := range count {
+		if best == nil || n > count[best] || (n == count[best] && o.Pos() < best.Pos()) {
+			best = o
+		}
+	}
+	return best
+}
